@@ -37,10 +37,10 @@ type machine struct {
 
 	e       error // first error (sticky) or nil
 	log     []string
-	illegal int  // calls the model knows to be misuse
-	stale   int  // uses of stale handles
-	afterE  int  // calls made while an error is sticky
-	roots   int  // successful root builds
+	illegal int // calls the model knows to be misuse
+	stale   int // uses of stale handles
+	afterE  int // calls made while an error is sticky
+	roots   int // successful root builds
 	freed   bool
 	broken  bool // stop after a violation was recorded (when not failing immediately)
 }
@@ -287,7 +287,10 @@ func (m *machine) step(a, arg int) bool {
 		if h == nil {
 			return false
 		}
-		m.call(fmt.Sprintf("m.Field(%d).List()", tag), false, func() error { m.lsts = append(m.lsts, lstVar{l: h.v.Field(tag).List(), detached: h.detached}); return nil })
+		m.call(fmt.Sprintf("m.Field(%d).List()", tag), false, func() error {
+			m.lsts = append(m.lsts, lstVar{l: h.v.Field(tag).List(), detached: h.detached})
+			return nil
+		})
 	case 9:
 		h := m.pickMsg(arg)
 		if h == nil {
@@ -383,7 +386,11 @@ func (m *machine) step(a, arg int) bool {
 		if !ok {
 			return false
 		}
-		m.call("l.Message()", false, func() error { s := l.l.Message(); m.msgs = append(m.msgs, &msgVar{v: s, copy: s, detached: l.detached, born: l.detached}); return nil })
+		m.call("l.Message()", false, func() error {
+			s := l.l.Message()
+			m.msgs = append(m.msgs, &msgVar{v: s, copy: s, detached: l.detached, born: l.detached})
+			return nil
+		})
 	case 18:
 		l, ok := m.pickList(arg)
 		if !ok {
